@@ -425,7 +425,14 @@ class Interp:
         raise Unsupported("unary")
 
     def ev_ref(self, env, n):
-        if n["mut"]: raise Unsupported("&mut expression at %s" % site(n))
+        if n["mut"]:
+            if not self.tolerant: raise Unsupported("&mut expression at %s" % site(n))
+            # tolerant mode: the alias reads the place's current value; whatever is written through it later is not tracked, so the place's
+            # root variable is made unknown right away (sound: it may hold anything afterwards)
+            v = self.ev(env, n["e"])
+            for r_ in self.mutated_roots({"k": "x", "a": n}):
+                if r_ in env.vars and r_ in self.ctx.mutable: env.vars[r_] = fresh_like(self.ctx, env.vars[r_], r_)
+            return v
         return self.ev(env, n["e"])
 
     def ev_cast(self, env, n):
@@ -1052,7 +1059,7 @@ class Interp:
             if m == "next" and not recv.adapters:
                 k = recv.consumed
                 recv.consumed += 1          # the iterator is a place: `next` advances it
-                some = self.ctx.fresh("%s_has_%d" % (recv.name, k), "Bool")
+                some = TRUE if getattr(recv, "always_some", False) else self.ctx.fresh("%s_has_%d" % (recv.name, k), "Bool")
                 return Opt(some, recv.elem(k))
             if m == "skip" and not recv.adapters:
                 a0 = self.ev(env, n["args"][0])
@@ -1066,6 +1073,8 @@ class Interp:
             for a_ in n["args"]:
                 for r_ in self.mutated_roots({"k": "x", "a": a_}):
                     if r_ in env.vars and r_ in self.ctx.mutable: env.vars[r_] = fresh_like(self.ctx, env.vars[r_], r_)
+            con = self.ctx.contracts.get("?::" + m)          # a recording hook for a method of an unknown receiver (e.g. `?::collect`)
+            if con is not None: return con(self, env, n, [recv] + args)
             return Havoc(self.ctx, "result_of_" + m)
         if isinstance(recv, Vec): return self.vec_method(env, n, recv, m, args)
         if isinstance(recv, Mat):
